@@ -7,7 +7,8 @@ Tie: hook correspondence on the real `arabic_joining` — exhaustive over 8 clas
 length 4 (quick) / 6 (thorough) with every context of length 0/1, random longer sequences and contexts over
 many characters, `setup_masks_inner` with random mask arrays, and `get_joining_type` on all code points.
 Search: the property predicate (specification vs the feature the implementation attaches to each letter) is
-evaluated on every one of those implementation outputs."""
+evaluated on every one of those implementation outputs, and on the glyphs `rustybuzz::shape` (public API) chooses
+on a generated font whose seven positional features map each letter to a distinct glyph per form."""
 import os
 import re
 import time
@@ -103,9 +104,15 @@ def feat_table(binp):
     return "[%s]" % "; ".join(F)
 
 
-def exhaustive(chk, binp, maxlen, F, nctx=9, tag="exh"):
-    """Returns (model_failures, spec_failures, anomalies); each failure = (n, pre, post, idx)."""
-    out = rbv(binp, ["exh", "--maxlen", str(maxlen), "--chunk", "32768", "--nctx", str(nctx)], timeout=1800)
+def exhaustive(chk, binp, maxlen, F, nctx=9, tag="exh", api_script=None):
+    """Returns (model_failures, spec_failures, anomalies, broken); each failure = (n, pre, post, idx).
+    api_script: run the enumeration through the public API on the generated font instead of the hook; then the observed
+    values are form indices read off the glyph ids, F is the font's own feature order and only the specification predicate applies."""
+    if api_script:
+        out = rbv(binp, ["api", "--script", api_script, "--maxlen", str(maxlen), "--chunk", "32768", "--nctx", str(nctx)], timeout=1800)
+        F = "[%s; None]" % "; ".join("Some " + l.split()[2] for l in out.splitlines() if l.startswith("apifeat "))
+    else:
+        out = rbv(binp, ["exh", "--maxlen", str(maxlen), "--chunk", "32768", "--nctx", str(nctx)], timeout=1800)
     blocks = []
     anomalies = []
     cases = joined = 0
@@ -116,6 +123,8 @@ def exhaustive(chk, binp, maxlen, F, nctx=9, tag="exh"):
         elif line.startswith("exh-summary"):
             m = re.search(r"cases=(\d+) joined=(\d+)", line)
             cases, joined = int(m.group(1)), int(m.group(2))
+        elif line.startswith("apifeat "):
+            pass
         elif line.strip():
             anomalies.append(line)
     # group blocks into files of ~40000 cases
@@ -145,8 +154,7 @@ def exhaustive(chk, binp, maxlen, F, nctx=9, tag="exh"):
             names.append("b%d" % bi)
         body += "Definition blocks : list blockT := [%s].\n" % "; ".join(names)
         body += "Definition F : list (option N) := %s.\n" % F
-        body += "Eval vm_compute in (check_blocks blk_model blocks 0).\n"
-        body += "Eval vm_compute in (check_blocks (blk_spec F) blocks 0).\n"
+        body += "Eval vm_compute in (check_blocks %s (blk_spec F) blocks 0).\n" % ("(blk_spec F)" if api_script else "blk_model")
         jobs.append(("c11_%s_%d" % (tag, fi), body))
     res = C.coq_eval_many(jobs, timeout=1500)
     mf, sf, broken = [], [], []
@@ -156,15 +164,15 @@ def exhaustive(chk, binp, maxlen, F, nctx=9, tag="exh"):
             broken.append({"what": "cases-file-failed", "file": "c11_%s_%d" % (tag, fi), "error": str(o)[-600:]})
             continue
         ls = C.parse_eval_lists(o)
-        if len(ls) != 2:
+        if len(ls) != 1:
             broken.append({"what": "no-answer", "file": "c11_%s_%d" % (tag, fi)})
             continue
-        for dst, l in ((mf, ls[0]), (sf, ls[1])):
-            for k in range(0, len(l) - 1, 2):
-                b = bl[l[k]]
-                dst.append((b[0], b[1], b[2], l[k + 1]))
-    chk.add_eval(2 * cases, joined)
-    chk.note("exhaustive" if nctx == 9 else "exhaustive_contexts_of_length_2",
+        l = ls[0]
+        for k in range(0, len(l) - 1, 2):
+            b = bl[l[k]]
+            (sf if l[k + 1] % 2 else mf).append((b[0], b[1], b[2], l[k + 1] // 2))
+    chk.add_eval((1 if api_script else 2) * cases, joined)
+    chk.note(("public_api_generated_font_" + api_script) if api_script else "exhaustive" if nctx == 9 else "exhaustive_contexts_of_length_2",
              {"max_text_length": maxlen, "alphabet": REP_NAMES, "contexts": "every pre/post context of length 0 or 1" if nctx == 9 else "every pre/post context of length 0, 1 or 2",
                             "sequences": cases, "with_a_joined_form": joined, "cases_files": len(files)})
     return mf, sf, anomalies, broken
@@ -328,8 +336,10 @@ def run(chk):
                        "(and up to 8 for the model) over representatives, random characters of the joining blocks, marks and others; "
                        "setup_masks_inner with random mask arrays; get_joining_type on every code point (as runs). Each implementation output is "
                        "compared with the Coq model (model vs implementation) and with the specification at feature level (property predicate). "
+                       "Public API: the same exhaustive enumeration (Syriac <= %d, Arabic <= %d) through rustybuzz::shape on a generated font, glyph ids "
+                       "decoded to forms and compared with the specification. "
                        "non-trivial = the sequence contains at least one joined form (init/medi/fina/fin2/fin3/med2); for joining types: characters "
-                       "whose class is not U" % maxlen)
+                       "whose class is not U" % ((maxlen,) + ((5, 4) if thorough else (4, 3))))
     pr = chk.prove(extra_targets=["Corr/JoiningC.vo"])
     C.log("C11: proofs done %.1fs" % (time.time() - chk.t0))
     acts, jts = gen_numbers()
@@ -389,6 +399,26 @@ def run(chk):
         for f in mf[:3]:
             p, t, q = exh_to_cps(f)
             dis.append({"what": "model-differs-from-implementation", "pre": hexs(p), "text": hexs(t), "post": hexs(q)})
+        # ---- public API on a generated font (isol/fina/fin2/fin3/medi/med2/init map each letter to a distinct glyph per form)
+        for script, ml in (("syrc", 5 if thorough else 4), ("arab", 4 if thorough else 3)):
+            _, sfa, ana, bra = exhaustive(chk, binp, ml, None, tag="api_" + script, api_script=script)
+            dis += bra
+            for a in ana[:3]:
+                fails.append({"what": "public-api-anomaly", "input": a, "script": script,
+                              "note": "panic, unexpected glyph or cluster from rustybuzz::shape on the generated font (n pre post index ...)"})
+            sfa.sort(key=lambda f: (f[0] + len(ctx_of(f[1])) + len(ctx_of(f[2])), f[0], f[1], f[2], f[3]))
+            for f in sfa[:2]:
+                p, t, q = exh_to_cps(f)
+                d = describe(binp, p, t, q, acts)
+                o = rbv(binp, ["apirun", script, hexs(p), hexs(t), hexs(q)])
+                d["public_api_features"] = o.split()[1:]
+                d["script"] = script
+                d["differs"] = d["public_api_features"] != d.get("specification_features")
+                d["replay_cmd"] = "rbv c11 apirun %s %s %s %s" % (script, hexs(p), hexs(t), hexs(q))
+                d["what"] = "public-api-form-differs-from-unicode-rules"
+                d["note"] = "glyphs chosen by rustybuzz::shape on the generated font (each positional feature maps each letter to its own glyph) against the specified forms"
+                fails.append(d)
+        C.log("C11: public API done %.1fs" % (time.time() - chk.t0))
         # ---- random longer
         nr = 10000 if thorough else 3000
         mf2, sf2, br2, n1 = random_cases(chk, binp, nr, F, 5, "rand")
@@ -449,7 +479,7 @@ def run(chk):
         "the character -> joining class table (ot_shaper_arabic_table.rs, generated from ArabicShaping.txt) is trusted data: no independent copy of ArabicShaping.txt is available offline; the check compares the translator's reading of the table with the code's lookup on every code point, not the table with Unicode",
         "join-causing characters (C: TATWEEL, ZWJ) are stored as D in the crate's table and shaped as dual-joining; non-joining (U) and transparent characters get no positional feature (NONE), as in HarfBuzz",
         "contexts: the buffer keeps 5 characters on each side (CONTEXT_LENGTH); 'context acts as text' is stated for contexts of up to 5 characters, C11_context_window for longer ones",
-        "mask_array[i] = 1-mask of ARABIC_FEATURES[i] (data_create_arabic) is tied by a translator shape guard and Props/C11_feature_of_action, not by a hook (needs a font); Mongolian variation-selector copying is outside the model",
+        "mask_array[i] = 1-mask of ARABIC_FEATURES[i] (data_create_arabic) and the feature application itself are outside the Coq model; they are covered by the public-API enumeration on the generated font (glyph chosen per letter against the specified form) and by Props/C11_feature_of_action for the ARABIC_FEATURES order; Mongolian variation-selector copying is outside the model",
     ]
     chk.cov["trusted_base"] = C.DEFAULT_TRUSTED_BASE + [
         "hooks: src/hb/ot_shaper_arabic.rs verif_arabic_joining / verif_get_joining_type / verif_action_feature / verif_setup_masks and src/hb/verif/joining.rs (buffer construction with context, init_unicode_props)",
@@ -471,5 +501,9 @@ def replay(chk, path):
     d = describe(binp, cp(body.get("pre", [])), cp(body["text"]), cp(body.get("post", [])), acts)
     print("NOW:", json.dumps(d, indent=1))
     bad = d.get("differs", True)
+    if body.get("script") and "public_api_features" in body:
+        o = rbv(binp, ["apirun", body["script"], hexs(cp(body.get("pre", []))), hexs(cp(body["text"])), hexs(cp(body.get("post", [])))])
+        print("NOW (public API):", o.strip())
+        bad = o.split()[1:] != d.get("specification_features")
     print("STILL FAILING" if bad else "no longer failing")
     return 1 if bad else 0
